@@ -189,7 +189,7 @@ fn exec_one(it: &Interpreter, env: &StreamEnv, vm: &mut VM, ictx: &mut Interpret
 }
 
 fn finalize(vm: &VM, ictx: &InterpreterContext, execs: Vec<String>) -> Final {
-    Final { regs: Regs::from_vm(vm).as_array(), stack: ictx.call_stack.clone(), execs, cells: watch_cells(vm) }
+    Final { regs: Regs::from_vm(vm).as_array(), stack: cs_get(ictx), execs, cells: watch_cells(vm) }
 }
 
 fn run_alone(env: &StreamEnv, stream: &[usize], which: u8) -> (Final, Box<VM>) {
